@@ -241,7 +241,7 @@ pub fn gen_clock(rng: &mut Prng, cfg: &ClockCfg) -> (ClockSpec, Vec<(u32, u8)>) 
             marks.push((k as u32, CF::PinValue as u8));
         }
     }
-    let spec = ClockSpec { readings, tail_key: rng.u64(), fork_skews: Vec::new(), freeze: None };
+    let spec = ClockSpec { readings, tail_key: rng.u64(), fork_skews: Vec::new(), freeze: None, abort_at: None };
     (spec, marks)
 }
 
